@@ -1,5 +1,5 @@
 """Sidecar: contracts on the real functions of /repo, keyed by file::qualname.  Nothing here edits /repo."""
-MODULES=['bits_reg','dsl']
+MODULES=['bits_reg','dsl','mem']
 
 def rtl_specs():
   from . import rtl_arb, rtl_queues, rtl_cksum
@@ -30,12 +30,15 @@ def c08_extra(prop,tier,seed,repo,reg,known):
 def c09_extra(prop,tier,seed,repo,reg,known):
   from zoo.run import run_special
   return run_special('defect',repo,seed,tier)
+def c18_extra(prop,tier,seed,repo,reg,known):
+  from zoo.run import run_mem
+  return run_mem(repo,seed,tier)
 def rtl_extra(prop,tier,seed,repo,reg,known):
   from .rtl_run import run_specs
   return run_specs([sp for sp in rtl_specs() if prop in sp.prop_ids],tier,repo)
 
 
-FIX_COMMITS=['052e08e','9c79cb1','dce12fb','1afafb3','61a0063','7632b61','95f312b']
+FIX_COMMITS=['052e08e','9c79cb1','dce12fb','1afafb3','61a0063','7632b61','95f312b','22cc801']
 
 PROPERTIES={
  'C04': dict(level='proof',
@@ -107,4 +110,9 @@ PROPERTIES={
    note="_check_upblk_writes / _check_port_in_upblk / _check_port_in_nets are not under discharged contracts; designs with two simultaneous defects may report either error. Labelled bounded.",
    explanation="one helper proved; the elaboration checks are exercised natively on an enumerated defect table",
    extra=['contracts:c09_extra'], require_cover=False, assumptions=[]),
+ 'C18': dict(level='other',
+   claim="Mixed. Proved (addresses, memory contents and data symbolic; access length enumerated 1..8 bytes): read_bytearray_bits returns exactly the little-endian value of bytes [addr, addr+n) as Bits(8n) and leaves memory alone; write_bytearray_bits sets exactly those bytes to the little-endian bytes of the data and frames every other byte; each of the nine atomic operations of MagicMemoryFL (add/and/or/xor/swap, signed and unsigned min/max) returns the specified result for all widths and operands. Bounded stand-in: the real MagicMemoryCL and stream MagicMemoryRTL, driven by seeded random request streams (reads, writes, all AMOs, lengths 1..4, overlapping addresses) on 1-2 ports under 72 timing configurations (latency, stall probability, source and sink timing incl. back-pressure), return per port exactly the responses of a sequential byte-array specification in request order and end with the same memory image.",
+   note="MagicMemoryCL.up_mem / MagicMemoryRTL.up_mem and the delay/stall components are exercised only by the bounded stand-in (CL method scheduling and greenlets are outside pyvc/rtlvc). Ports use disjoint address regions in the stand-in, so inter-port ordering is not constrained.",
+   explanation="memory primitives proved deductively; system-level in-order/timing-independence checked natively on enumerated timing configurations (bounded)",
+   extra=['contracts:c18_extra'], require_cover=False, assumptions=["Bits data passed to write_bytearray_bits has at least 8 bits (always 8*nbytes in the memories)"]),
 }
